@@ -156,9 +156,9 @@ class BaseValidator(object):
                 for check_name in self.cid.check_names:
                     self.cid.check_map[check_name].check_at_end(self.location)
             finally:
+                self._is_closed = True
                 for check in self.cid.check_map.values():
                     check.cleanup()
-            self._is_closed = True
 
 
 class Reader(BaseValidator):
